@@ -38,14 +38,14 @@ MANIFEST = {
 
 # the constructors inside TypecheckProofs3.in_fragment (kept in sync by hand with coq/proofs/TypecheckProofs3.v)
 PROVED_FRAGMENT = {
-    "predicate": "TypecheckProofs3.in_fragment (syntactic)",
+    "predicate": "TypecheckMain.in_fragment (syntactic)",
     "inside": ["Lit (all literals)", "Var (principal, action, resource, context)", "And", "Or (capabilities on both sides)",
-               "UnApp Not", "UnApp Neg", "BinApp Eq", "BinApp Add", "BinApp Sub", "BinApp Mul",
+               "UnApp Not", "UnApp Neg", "UnApp IsEmpty", "BinApp Eq", "BinApp Less", "BinApp LessEq", "BinApp Add",
+               "BinApp Sub", "BinApp Mul", "BinApp Contains", "BinApp ContainsAll", "BinApp ContainsAny",
                "If c x y (x, y boolean-rooted: And/Or/Not/Eq/HasAttr/bool literal)",
                "HasAttr p a / GetAttr p a with p an access path (Var followed by GetAttr), records and entities, "
                "required and optional (capability-guarded) attributes", "Like", "Is"],
-    "outside": ["Slot", "Unknown", "If with non-boolean-rooted branches", "UnApp IsEmpty", "BinApp Less/LessEq/In/Contains/"
-                "ContainsAll/ContainsAny/GetTag/HasTag", "ExtCall", "GetAttr/HasAttr on non-path expressions", "SetE", "RecordE"],
+    "outside": ["Slot", "Unknown", "If with non-boolean-rooted branches", "BinApp In/GetTag/HasTag", "ExtCall", "GetAttr/HasAttr on non-path expressions", "SetE", "RecordE"],
     "theorems_for_both_modes": True,
 }
 
